@@ -54,6 +54,8 @@ fn main() {
                 "C18" => rnv::c18::main(&ctx),
                 "C06" => rnv::c06::main(&ctx),
                 "C10" => rnv::c10::main(&ctx),
+                "C13" => rnv::c13::main(&ctx),
+                "C15" => rnv::c15::main(&ctx),
                 "C16" | "C17" => rnv::c1617::main(&ctx),
                 "C03" => rnv::c02::main(&ctx, rnv::logmodel::Profile::Truncation),
                 _ => {
@@ -118,6 +120,43 @@ fn main() {
             println!("LOG0 {}", c.log_tail(0));
             println!("LOG1 {}", c.log_tail(1));
             c.shutdown();
+            std::process::exit(0);
+        }
+        "__smoke-c15" => {
+            let work = std::path::PathBuf::from("/verif/work/smoke3");
+            std::fs::create_dir_all(&work).ok();
+            let env = std::collections::BTreeMap::new();
+            let mut c = rnv::cluster::Cluster::new(&work, "c1", 3, 7, env).unwrap();
+            println!("form: {:?}", c.form());
+            let reg = |c: &rnv::cluster::Cluster, node: usize, svc: &str, ip: &str| {
+                c.client.post(format!("{}/nacos/v1/ns/instance", c.http(node))).form(&[("serviceName", svc), ("ip", ip), ("port", "8080"), ("ephemeral", "true"), ("weight", "3")]).send().map(|r| r.status().as_u16())
+            };
+            // several services so that every node owns some
+            for (i, svc) in ["s-a", "s-b", "s-c", "s-d", "s-e", "s-f"].iter().enumerate() {
+                println!("register {} via node {}: {:?}", svc, (i % 3) + 1, reg(&c, i % 3, svc, "10.9.9.9"));
+            }
+            std::thread::sleep(std::time::Duration::from_secs(3));
+            for svc in ["s-a", "s-b", "s-c", "s-d", "s-e", "s-f"] {
+                let r = c.client.delete(format!("{}/nacos/v1/ns/instance", c.http(0))).query(&[("serviceName", svc), ("ip", "10.9.9.9"), ("port", "8080"), ("ephemeral", "true")]).send().map(|r| r.status().as_u16());
+                println!("deregister {} via node 1: {:?}", svc, r);
+            }
+            c.kill(0);
+            println!("killed node 1");
+            let t0 = Instant::now();
+            while t0.elapsed().as_secs() < 70 {
+                let mut line = format!("t={:3}s", t0.elapsed().as_secs());
+                for nd in 1..3 {
+                    for svc in ["s-a", "s-b", "s-c", "s-d", "s-e", "s-f"] {
+                        let v: serde_json::Value = c.client.get(format!("{}/nacos/v1/ns/instance/list", c.http(nd))).query(&[("serviceName", svc), ("healthyOnly", "false")]).send().ok().and_then(|r| r.json().ok()).unwrap_or(serde_json::Value::Null);
+                        let hs = v["hosts"].as_array().map(|a| a.iter().map(|h| if h["healthy"].as_bool().unwrap_or(false) { "H" } else { "u" }).collect::<String>()).unwrap_or_default();
+                        line.push_str(&format!(" n{}:{}={}", nd + 1, svc, if hs.is_empty() { "-".to_string() } else { hs }));
+                    }
+                }
+                println!("{}", line);
+                std::thread::sleep(std::time::Duration::from_secs(6));
+            }
+            for nd in 1..3 { let s = std::fs::read_to_string(&c.nodes[nd].log).unwrap_or_default(); for l in s.lines().filter(|l| l.contains("DBG")) { println!("n{} {}", nd + 1, l); } }
+            c.cleanup();
             std::process::exit(0);
         }
         "__c04-record" => {
